@@ -64,8 +64,17 @@ def run_scenario(sc, fault, env, res):
         env.set_winsize(max(1, sc["size"][0] - 1), max(1, sc["size"][1] - 1))
     elif fault and fault[0] == "size":
         subj.size_fail = make_exc(fault[1])
+    elif fault and fault[0] == "bad-args":
+        pass  # see *rargs* below
     elif fault:
         subj.fail_at = (fault[0], make_exc(fault[1]))
+    # render arguments of an unrelated render class: the operation is refused (whatever it
+    # had created by then must not be left behind)
+    rargs = None
+    if fault and fault[0] == "bad-args":
+        from term_image.renderable import RenderArgs
+
+        rargs = RenderArgs(S.Other, S.OtherArgs(3))
     kept = []  # tokens handed over with finalize=False (caller keeps ownership)
     kept_data = []
     errs = []
@@ -105,16 +114,16 @@ def run_scenario(sc, fault, env, res):
         if kind == "str":
             str(subj)
         elif kind == "render":
-            subj.render(None, AlignedPadding(sc["size"][0] + 2, sc["size"][1] + 1))
+            subj.render(rargs, AlignedPadding(sc["size"][0] + 2, sc["size"][1] + 1))
         elif kind == "draw_still":
-            subj.draw(animate=False, check_size=sc.get("check", True))
+            subj.draw(rargs, animate=False, check_size=sc.get("check", True))
         elif kind == "draw_anim":
-            subj.draw(loops=sc["loops"], cache=sc["cache"])
+            subj.draw(rargs, loops=sc["loops"], cache=sc["cache"])
         elif kind == "iter_dunder":
             for f in subj:
                 pass
         elif kind in ("iter_full", "iter_close", "iter_drop", "iter_seek"):
-            it = RenderIterator(subj, None, ExactPadding(), sc["loops"], sc["cache"])
+            it = RenderIterator(subj, rargs, ExactPadding(), sc["loops"], sc["cache"])
             steps = 10**6 if kind == "iter_full" else sc["steps"]
             done = False
             for i in range(steps):
@@ -273,7 +282,7 @@ def run_scenario(sc, fault, env, res):
             errs.append("render data #%d finalized %d times (outcome %s)" % (S.created.index(t), c, outcome))
     if S.used_after_finalize:
         errs.append("a frame was rendered with already-finalized render data")
-    if not S.created and not (fault and fault[0] == "size"):
+    if not S.created and not (fault and fault[0] in ("size", "bad-args")):
         errs.append("no render data was created?")
     env.set_winsize(40, 20)
     return ("; ".join(errs) if errs else None), calls, outcome
@@ -319,6 +328,8 @@ def run_shard(shard, env):
             res.count("fault-free profiles")
             res.case((sc, None))
             faults = [(k, e) for k in range(1, K + 1) for e in EXCS] + [("size", "RuntimeError"), ("size", "AttributeError"), ("too-small",)]
+            if sc["kind"] in ("render", "draw_still", "draw_anim", "iter_full", "iter_close", "iter_drop", "iter_seek"):
+                faults.append(("bad-args",))
             if msg:
                 res.violation("C10:fault-free:" + sc["kind"], msg + " [%s]" % sc, dict(sc=sc, fault=None))
             for fault in faults:
